@@ -78,10 +78,30 @@ fn near(r: &mut Rng, e: &[f64]) -> Vec<f64> {
     let dir = r.distinct(e.len()); let n = dir.iter().map(|x| x * x).sum::<f64>().sqrt();
     e.iter().zip(dir.iter()).map(|(a, b)| a + b / n * len).collect()
 }
+/// one call in four of the free curve functions and structs has control points that coincide exactly (a handle collapsed onto
+/// its knot, both handles equal, start = end): shortcuts for "straight" or "degenerate" curves show only there
+fn coincide(r: &mut Rng, v: &mut Vec<f64>, dim: usize, npts: usize) {
+    if r.below(4) != 0 { return; }
+    let cp = |v: &mut Vec<f64>, from: usize, to: usize| { for k in 0..dim { v[to * dim + k] = v[from * dim + k]; } };
+    let last = npts - 1;
+    match r.below(6) {
+        0 => cp(v, 0, 1),                                   // first handle on the start point
+        1 => cp(v, last, last - 1),                         // last handle on the end point
+        2 => { cp(v, 0, 1); cp(v, last, last - 1); }        // both (for a quadratic: the later copy wins)
+        3 => { if npts == 4 { cp(v, 1, 2); } else { cp(v, 0, last); } }
+        4 => cp(v, 0, last),                                // closed loop
+        _ => { for i in 1..npts { cp(v, 0, i); } }          // a single point
+    }
+}
 pub fn gen_args(r: &mut Rng, op: i64) -> Vec<f64> {
+    let mut v = gen_args0(r, op);
+    match op { 206 | 215 => coincide(r, &mut v, 2, 3), 207 | 216 => coincide(r, &mut v, 2, 4), 212 | 217 => coincide(r, &mut v, 3, 3), 213 | 218 => coincide(r, &mut v, 3, 4), _ => {} }
+    v
+}
+fn gen_args0(r: &mut Rng, op: i64) -> Vec<f64> {
     let d = |r: &mut Rng, n: usize| r.distinct(n);
     match op {
-        200 => { let mut v = d(r, 2); v.push(*r.pick(&[-360.0, -270.0, -90.0, -1e-9, 1e-9, 45.0, 90.0, 180.0, 359.999, 360.0, 33.3, 361.0])); v.push(segs(r)); v }
+        200 => { let mut v = d(r, 2); v.push(r.deg(&[-360.0, -270.0, -90.0, -1e-9, 1e-9, 45.0, 90.0, 180.0, 359.999, 360.0, 33.3, 361.0])); v.push(segs(r)); v }
         201 => vec![pos(r), segs(r).max(3.0)],
         202 | 203 => vec![nsides(r), pos(r)],
         204 => { let w = pos(r) + 1.0; let h = pos(r) + 1.0; let m = w.min(h) / 2.0;
